@@ -34,13 +34,14 @@ Section Exp.
                 | (Exc e, trs, es) =>
                     (Exc e, map (fun st => TR (fst st) (snd st) None []) done ++ trs, es) end end.
 
-  (* Coalesce: every alternative until one succeeds; all failed -> its own error, the attempts as branches *)
-  Fixpoint alt_exp (t : nat) (bs : list tspec) (failed : list (list tr)) : option nat * list (list tr) :=
+  (* Coalesce: every alternative until one succeeds with a value that is not skipped; none -> its own error, the FAILED
+     attempts as branches ([last_failed]: whether the attempt made last was a failing one) *)
+  Fixpoint alt_exp (t : nat) (bs : list tspec) (failed : list (list tr)) (last_failed : bool) : option nat * list (list tr) * bool :=
     match bs with
-    | [] => (None, failed)
+    | [] => (None, failed, last_failed)
     | b :: r => match rec b t with
-                | (Ret v, _, _) => (Some v, failed)
-                | (Exc _, trb, _) => alt_exp t r (failed ++ [trb]) end end.
+                | (Ret v, _, _) => if Nat.eqb v 0 then alt_exp t r failed false else (Some v, failed, last_failed)
+                | (Exc _, trb, _) => alt_exp t r (failed ++ [trb]) true end end.
 
   Fixpoint or_exp (t : nat) (bs : list tspec) (failed : list (list tr)) (last : nat * nat) : option nat * list (list tr) * (nat * nat) :=
     match bs with
@@ -68,16 +69,18 @@ Fixpoint exp (fuel : nat) (s : tspec) (t : nat) : out * list tr * nat :=
   match fuel with O => (Exc 0, [], 0) | S fuel =>
   match s with
   | Leaf n ok => if ok then (Ret (2000 + n), [], 0) else (Exc n, [TR n t (Some n) []], n)
+  | SkipLeaf _ => (Ret 0, [], 0)
   | Nest n kids => nest_exp (exp fuel) n t kids
   | Chain n steps =>
       match chain_exp (exp fuel) t [] steps with
       | (Ret v, _, _) => (Ret v, [], 0)
       | (Exc e, trs, es) => (Exc e, above n t e trs (match trs with TR _ _ None _ :: _ => e | _ => es end), e) end
   | Alt n bs =>
-      match alt_exp (exp fuel) t bs [] with
-      | (Some v, _) => (Ret v, [], 0)
-      | (None, [one]) => (Exc (5000 + n), TR n t (Some (5000 + n)) [] :: one, 5000 + n)
-      | (None, failed) => (Exc (5000 + n), [TR n t (Some (5000 + n)) failed], 5000 + n) end
+      match alt_exp (exp fuel) t bs [] false with
+      | (Some v, _, _) => (Ret v, [], 0)
+      (* a single failed attempt that was also the last one is a straight line; otherwise the failed attempts are branches *)
+      | (None, [one], true) => (Exc (5000 + n), TR n t (Some (5000 + n)) [] :: one, 5000 + n)
+      | (None, failed, _) => (Exc (5000 + n), [TR n t (Some (5000 + n)) failed], 5000 + n) end
   | OrS n bs =>
       match bs with
       | [] => (Ret t, [], 0)
@@ -122,6 +125,7 @@ Fixpoint relabel (fuel : nat) (s : tspec) (n : nat) : tspec * nat :=
       match l with [] => ([], n) | x :: r => let '(x', n1) := relabel fuel x n in let '(r', n2) := many r n1 in (x' :: r', n2) end in
   match s with
   | Leaf _ ok => (Leaf n ok, S n)
+  | SkipLeaf _ => (SkipLeaf n, S n)
   | Nest _ l => let '(l', m) := many l (S n) in (Nest n l', m)
   | Chain _ l => let '(l', m) := many l (S n) in (Chain n l', m)
   | Alt _ l => let '(l', m) := many l (S n) in (Alt n l', m)
@@ -139,7 +143,7 @@ Definition lists12 {A} (l : list A) : list (list A) := map (fun x => [x]) l ++ f
 Definition level (prev : list tspec) : list tspec :=
   prev ++ flat_map (fun ks => [Nest 0 ks; Chain 0 ks; Alt 0 ks; OrS 0 ks]) (lists12 prev)
        ++ map (fun kv => Switch 0 [kv]) (list_prod prev prev).
-Definition leaves : list tspec := [Leaf 0 true; Leaf 0 false].
+Definition leaves : list tspec := [Leaf 0 true; Leaf 0 false; SkipLeaf 0].
 Definition shapes1 : list tspec :=
   level leaves ++ map (fun kvs => Switch 0 kvs) (flat_map (fun a => map (fun b => [a; b]) (list_prod leaves leaves)) (list_prod leaves leaves)).
 Definition shapes2 : list tspec := level shapes1.
